@@ -148,15 +148,17 @@ OutObs13 == <<ObsAt(P13, <<5, 3, 1>>, "face_out"), ObsAt(P13, <<-3, 5, -7>>, "ou
 LoopObs13 == <<ObsAt(P13, <<1, 3, 1>>, "gen"), ObsAt(P13, <<5, -3, 3>>, "gen"), ObsAt(P13, <<-7, 9, 5>>, "gen"), ObsAt(P13, <<3, 1, -13>>, "gen")>>
 \* observers for the moving cuboid: global points that stay off every plane of the body frames along Path3
 PathObs13 == <<Obs(<<-1, 5, 3>>, "gen"), Obs(<<3, 3, -1>>, "gen"), Obs(<<9, -5, 7>>, "gen"), Obs(Far13, "far")>>
+\* an unrotated pose: with the exact gauge of the harness (no global rotation) an observer ON a half plane is seen there by the implementation too
+PHalf == Pose(<<2, -4, 6>>, IdM)
 C13Defs == [
   Cuboid |-> Cfg(4, <<Src("Cuboid", <<4, 8, 12>>, <<1, 2, 3>>, <<P13>>)>>, BoxObs13, NoSensor),
   CuboidPath |-> Cfg(4, <<Src("Cuboid", <<4, 8, 12>>, <<3, -1, 2>>, Path3)>>, PathObs13, NoSensor),
   Cylinder |-> Cfg(4, <<Src("Cylinder", <<8, 8>>, <<1, 2, 3>>, <<P13>>)>>, CylObs13, NoSensor),
   \* observers inside and outside a Cylinder ON the half planes phi = 0, 90, 180 degrees through its axis: no surface of
   \* the body, but where a representation by a section (FullSeg: 0..360 degrees) has its section angle
-  CylinderHalfPlanes |-> Cfg(4, <<Src("Cylinder", <<8, 8>>, <<1, 2, 3>>, <<P13>>)>>,
-        <<ObsAt(P13, <<2, 0, 1>>, "deep_in"), ObsAt(P13, <<-3, 0, -1>>, "deep_in"), ObsAt(P13, <<0, 2, 3>>, "deep_in"), ObsAt(P13, <<1, 0, -3>>, "deep_in"),
-          ObsAt(P13, <<6, 0, 1>>, "out"), ObsAt(P13, <<0, -7, 5>>, "out")>>, NoSensor),
+  CylinderHalfPlanes |-> Cfg(4, <<Src("Cylinder", <<8, 8>>, <<1, 2, 3>>, <<PHalf>>)>>,
+        <<ObsAt(PHalf, <<2, 0, 1>>, "deep_in"), ObsAt(PHalf, <<-3, 0, -1>>, "deep_in"), ObsAt(PHalf, <<0, 2, 3>>, "deep_in"), ObsAt(PHalf, <<1, 0, -3>>, "deep_in"),
+          ObsAt(PHalf, <<6, 0, 1>>, "out"), ObsAt(PHalf, <<0, -7, 5>>, "out")>>, NoSensor),
   Segment |-> Cfg(4, <<Src("CylinderSegment", <<2, 6, 8, 2, 14>>, <<1, 2, 3>>, <<P13>>)>>, SegObs13, NoSensor),
   \* section angles beyond and straddling -360 / +360 degrees (valid input): -450..-270 and 270..450 degrees are the half ring x > 0
   SegmentTurnsNeg |-> Cfg(4, <<Src("CylinderSegment", <<2, 6, 8, -30, -18>>, <<1, 2, 3>>, <<P13>>)>>, SegTurnObs13, NoSensor),
